@@ -228,9 +228,44 @@ impl<'s> Semantics<'s> {
         }
     }
 
+    /// The count / source index / destination index register of string and
+    /// loop instructions: CX, SI or DI (given by its 16-bit name) at the
+    /// address size of the instruction.
+    fn address_register(&self, register: x86_reg) -> Result<&'static X86Register, Error> {
+        let bits = self.mode().address_bits(self.instruction());
+        let register = match (register, bits) {
+            (x86_reg::X86_REG_CX, 16) => x86_reg::X86_REG_CX,
+            (x86_reg::X86_REG_CX, 32) => x86_reg::X86_REG_ECX,
+            (x86_reg::X86_REG_CX, 64) => x86_reg::X86_REG_RCX,
+            (x86_reg::X86_REG_SI, 16) => x86_reg::X86_REG_SI,
+            (x86_reg::X86_REG_SI, 32) => x86_reg::X86_REG_ESI,
+            (x86_reg::X86_REG_SI, 64) => x86_reg::X86_REG_RSI,
+            (x86_reg::X86_REG_DI, 16) => x86_reg::X86_REG_DI,
+            (x86_reg::X86_REG_DI, 32) => x86_reg::X86_REG_EDI,
+            (x86_reg::X86_REG_DI, 64) => x86_reg::X86_REG_RDI,
+            _ => {
+                return Err(Error::Custom(
+                    "invalid address-size register".to_string(),
+                ))
+            }
+        };
+        self.get_register(register)
+    }
+
+    /// The value of an address-size register as a memory address (zero-extended
+    /// to the bits of the mode)
+    fn address_of(&self, register: &X86Register) -> Result<Expression, Error> {
+        let address = register.get()?;
+        if address.bits() < self.mode().bits() {
+            Expr::zext(self.mode().bits(), address)
+        } else {
+            Ok(address)
+        }
+    }
+
     /// Returns a condition which is true if a loop should be taken
     pub fn loop_condition(&self) -> Result<Expression, Error> {
-        let cx = self.get_register(x86_reg::X86_REG_ECX)?.get_full()?;
+        let cx = self.address_register(x86_reg::X86_REG_CX)?;
 
         if let capstone::InstrIdArch::X86(instruction_id) = self.instruction().id {
             match instruction_id {
@@ -258,7 +293,7 @@ impl<'s> Semantics<'s> {
             return Err(Error::ControlFlowGraphEntryExitNotFound);
         }
 
-        let cx = self.get_register(x86_reg::X86_REG_ECX)?.get_full()?;
+        let cx = self.address_register(x86_reg::X86_REG_CX)?;
 
         let head_index = control_flow_graph.new_block()?.index();
 
@@ -266,7 +301,7 @@ impl<'s> Semantics<'s> {
             let loop_block = control_flow_graph.new_block()?;
             cx.set(
                 loop_block,
-                Expr::sub(cx.get()?, expr_const(1, self.mode().bits()))?,
+                Expr::sub(cx.get()?, expr_const(1, cx.bits()))?,
             )?;
             loop_block.index()
         };
@@ -281,12 +316,12 @@ impl<'s> Semantics<'s> {
         control_flow_graph.conditional_edge(
             head_index,
             entry,
-            Expr::cmpneq(cx.get()?, expr_const(0, self.mode().bits()))?,
+            Expr::cmpneq(cx.get()?, expr_const(0, cx.bits()))?,
         )?;
         control_flow_graph.conditional_edge(
             head_index,
             terminating_index,
-            Expr::cmpeq(cx.get()?, expr_const(0, self.mode().bits()))?,
+            Expr::cmpeq(cx.get()?, expr_const(0, cx.bits()))?,
         )?;
 
         // exit -> loop
@@ -348,7 +383,7 @@ impl<'s> Semantics<'s> {
             return Err(Error::ControlFlowGraphEntryExitNotFound);
         }
 
-        let cx = self.get_register(x86_reg::X86_REG_ECX)?.get_full()?;
+        let cx = self.address_register(x86_reg::X86_REG_CX)?;
 
         let head_index = control_flow_graph.new_block()?.index();
 
@@ -356,7 +391,7 @@ impl<'s> Semantics<'s> {
             let loop_block = control_flow_graph.new_block()?;
             cx.set(
                 loop_block,
-                Expr::sub(cx.get()?, expr_const(1, self.mode().bits()))?,
+                Expr::sub(cx.get()?, expr_const(1, cx.bits()))?,
             )?;
             loop_block.index()
         };
@@ -371,12 +406,12 @@ impl<'s> Semantics<'s> {
         control_flow_graph.conditional_edge(
             head_index,
             entry,
-            Expr::cmpneq(cx.get()?, expr_const(0, self.mode().bits()))?,
+            Expr::cmpneq(cx.get()?, expr_const(0, cx.bits()))?,
         )?;
         control_flow_graph.conditional_edge(
             head_index,
             terminating_index,
-            Expr::cmpeq(cx.get()?, expr_const(0, self.mode().bits()))?,
+            Expr::cmpeq(cx.get()?, expr_const(0, cx.bits()))?,
         )?;
 
         // exit -> loop
@@ -1277,15 +1312,9 @@ impl<'s> Semantics<'s> {
     pub fn cmpsb(&self, control_flow_graph: &mut ControlFlowGraph) -> Result<(), Error> {
         let detail = self.details()?;
 
-        let si = match *self.mode() {
-            Mode::X86 => self.get_register(x86_reg::X86_REG_ESI)?,
-            Mode::Amd64 => self.get_register(x86_reg::X86_REG_RSI)?,
-        };
-        let di = match *self.mode() {
-            Mode::X86 => self.get_register(x86_reg::X86_REG_EDI)?,
-            Mode::Amd64 => self.get_register(x86_reg::X86_REG_RDI)?,
-        };
-        let bits = self.mode().bits();
+        let si = self.address_register(x86_reg::X86_REG_SI)?;
+        let di = self.address_register(x86_reg::X86_REG_DI)?;
+        let bits = si.bits();
 
         let head_index = {
             let block = control_flow_graph.new_block()?;
@@ -1950,9 +1979,10 @@ impl<'s> Semantics<'s> {
             let block = control_flow_graph.new_block()?;
 
             let dst = self.get_register(detail.operands[0].reg())?;
+            // lea yields the offset: a segment override does not change it
             let mut src = self
                 .mode()
-                .operand_value(&detail.operands[1], self.instruction())?;
+                .operand_offset(&detail.operands[1], self.instruction())?;
 
             if src.bits() > dst.bits() {
                 src = Expr::trun(dst.bits(), src)?;
@@ -1994,7 +2024,7 @@ impl<'s> Semantics<'s> {
     pub fn lodsb(&self, control_flow_graph: &mut ControlFlowGraph) -> Result<(), Error> {
         let detail = self.details()?;
 
-        let si = self.get_register(x86_reg::X86_REG_ESI)?.get_full()?;
+        let si = self.address_register(x86_reg::X86_REG_SI)?;
 
         let head_index = {
             let block = control_flow_graph.new_block()?;
@@ -2011,7 +2041,7 @@ impl<'s> Semantics<'s> {
 
             si.set(
                 block,
-                Expr::add(si.get()?, expr_const(1, self.mode().bits()))?,
+                Expr::add(si.get()?, expr_const(1, si.bits()))?,
             )?;
 
             block.index()
@@ -2022,7 +2052,7 @@ impl<'s> Semantics<'s> {
 
             si.set(
                 block,
-                Expr::sub(si.get()?, expr_const(1, self.mode().bits()))?,
+                Expr::sub(si.get()?, expr_const(1, si.bits()))?,
             )?;
 
             block.index()
@@ -2054,7 +2084,7 @@ impl<'s> Semantics<'s> {
     pub fn lodsd(&self, control_flow_graph: &mut ControlFlowGraph) -> Result<(), Error> {
         let detail = self.details()?;
 
-        let si = self.get_register(x86_reg::X86_REG_ESI)?.get_full()?;
+        let si = self.address_register(x86_reg::X86_REG_SI)?;
 
         let head_index = {
             let block = control_flow_graph.new_block()?;
@@ -2071,7 +2101,7 @@ impl<'s> Semantics<'s> {
 
             si.set(
                 block,
-                Expr::add(si.get()?, expr_const(4, self.mode().bits()))?,
+                Expr::add(si.get()?, expr_const(4, si.bits()))?,
             )?;
 
             block.index()
@@ -2082,7 +2112,7 @@ impl<'s> Semantics<'s> {
 
             si.set(
                 block,
-                Expr::sub(si.get()?, expr_const(4, self.mode().bits()))?,
+                Expr::sub(si.get()?, expr_const(4, si.bits()))?,
             )?;
 
             block.index()
@@ -2115,10 +2145,10 @@ impl<'s> Semantics<'s> {
         let block_index = {
             let block = control_flow_graph.new_block()?;
 
-            let cx = self.get_register(x86_reg::X86_REG_CX)?.get_full()?;
+            let cx = self.address_register(x86_reg::X86_REG_CX)?;
             cx.set(
                 block,
-                Expr::sub(cx.get()?, expr_const(1, self.mode().bits()))?,
+                Expr::sub(cx.get()?, expr_const(1, cx.bits()))?,
             )?;
 
             block.index()
@@ -2265,8 +2295,8 @@ impl<'s> Semantics<'s> {
 
         let bits_size = detail.operands[1].size as usize * 8;
 
-        let si = self.get_register(x86_reg::X86_REG_SI)?.get_full()?;
-        let di = self.get_register(x86_reg::X86_REG_DI)?.get_full()?;
+        let si = self.address_register(x86_reg::X86_REG_SI)?;
+        let di = self.address_register(x86_reg::X86_REG_DI)?;
 
         let head_index = {
             let block = control_flow_graph.new_block()?;
@@ -2285,7 +2315,7 @@ impl<'s> Semantics<'s> {
                 block,
                 Expr::add(
                     si.get()?,
-                    expr_const((bits_size / 8) as u64, self.mode().bits()),
+                    expr_const((bits_size / 8) as u64, si.bits()),
                 )?,
             )?;
 
@@ -2293,7 +2323,7 @@ impl<'s> Semantics<'s> {
                 block,
                 Expr::add(
                     di.get()?,
-                    expr_const((bits_size / 8) as u64, self.mode().bits()),
+                    expr_const((bits_size / 8) as u64, di.bits()),
                 )?,
             )?;
 
@@ -2307,7 +2337,7 @@ impl<'s> Semantics<'s> {
                 block,
                 Expr::sub(
                     si.get()?,
-                    expr_const((bits_size / 8) as u64, self.mode().bits()),
+                    expr_const((bits_size / 8) as u64, si.bits()),
                 )?,
             )?;
 
@@ -2315,7 +2345,7 @@ impl<'s> Semantics<'s> {
                 block,
                 Expr::sub(
                     di.get()?,
-                    expr_const((bits_size / 8) as u64, self.mode().bits()),
+                    expr_const((bits_size / 8) as u64, di.bits()),
                 )?,
             )?;
 
@@ -3566,14 +3596,14 @@ impl<'s> Semantics<'s> {
 
     pub fn scasb(&self, control_flow_graph: &mut ControlFlowGraph) -> Result<(), Error> {
         let al = self.get_register(x86_reg::X86_REG_AL)?;
-        let di = self.get_register(x86_reg::X86_REG_DI)?.get_full()?;
+        let di = self.address_register(x86_reg::X86_REG_DI)?;
 
         let head_index = {
             let block = control_flow_graph.new_block()?;
 
             // get operands
             let temp = self.temp(0, 8);
-            block.load(temp.clone(), di.get()?);
+            block.load(temp.clone(), self.address_of(di)?);
             let expr = Expr::sub(al.get()?, temp.clone().into())?;
 
             // calculate flags
@@ -3590,7 +3620,7 @@ impl<'s> Semantics<'s> {
 
             di.set(
                 block,
-                Expr::add(di.get()?, expr_const(1, self.mode().bits()))?,
+                Expr::add(di.get()?, expr_const(1, di.bits()))?,
             )?;
 
             block.index()
@@ -3601,7 +3631,7 @@ impl<'s> Semantics<'s> {
 
             di.set(
                 block,
-                Expr::sub(di.get()?, expr_const(1, self.mode().bits()))?,
+                Expr::sub(di.get()?, expr_const(1, di.bits()))?,
             )?;
 
             block.index()
@@ -3632,14 +3662,14 @@ impl<'s> Semantics<'s> {
 
     pub fn scasw(&self, control_flow_graph: &mut ControlFlowGraph) -> Result<(), Error> {
         let ax = self.get_register(x86_reg::X86_REG_AX)?;
-        let di = self.get_register(x86_reg::X86_REG_DI)?.get_full()?;
+        let di = self.address_register(x86_reg::X86_REG_DI)?;
 
         let head_index = {
             let block = control_flow_graph.new_block()?;
 
             // get operands
             let temp = self.temp(0, 16);
-            block.load(temp.clone(), di.get()?);
+            block.load(temp.clone(), self.address_of(di)?);
             let expr = Expr::sub(ax.get()?, temp.clone().into())?;
 
             // calculate flags
@@ -3656,7 +3686,7 @@ impl<'s> Semantics<'s> {
 
             di.set(
                 block,
-                Expr::add(di.get()?, expr_const(2, self.mode().bits()))?,
+                Expr::add(di.get()?, expr_const(2, di.bits()))?,
             )?;
 
             block.index()
@@ -3667,7 +3697,7 @@ impl<'s> Semantics<'s> {
 
             di.set(
                 block,
-                Expr::sub(di.get()?, expr_const(2, self.mode().bits()))?,
+                Expr::sub(di.get()?, expr_const(2, di.bits()))?,
             )?;
 
             block.index()
@@ -3983,7 +4013,7 @@ impl<'s> Semantics<'s> {
     pub fn stos(&self, control_flow_graph: &mut ControlFlowGraph) -> Result<(), Error> {
         let detail = self.details()?;
 
-        let di = self.get_register(x86_reg::X86_REG_DI)?.get_full()?;
+        let di = self.address_register(x86_reg::X86_REG_DI)?;
 
         // create a block for this instruction
         let (block_index, bits) = {
@@ -4001,7 +4031,7 @@ impl<'s> Semantics<'s> {
 
             di.set(
                 inc_block,
-                Expr::add(di.get()?, expr_const(bits / 8, self.mode().bits()))?,
+                Expr::add(di.get()?, expr_const(bits / 8, di.bits()))?,
             )?;
 
             inc_block.index()
@@ -4012,7 +4042,7 @@ impl<'s> Semantics<'s> {
 
             di.set(
                 dec_block,
-                Expr::sub(di.get()?, expr_const(bits / 8, self.mode().bits()))?,
+                Expr::sub(di.get()?, expr_const(bits / 8, di.bits()))?,
             )?;
 
             dec_block.index()
